@@ -123,6 +123,7 @@ PROJECTIONS = {
     "counts": proj_by_op({k: ("counts", "extra") for k in ["fab", "genesis", "next", "batch", "seal", "block", "restore"]}),
     "feemult": proj_by_op({"seal": ("fm",), "fm": ("all",), "next": ("fm",), "block": ("fm",)}, default=("none",)),
     "coins_after_batch": proj_by_op({"batch": ("coins", "extra"), "genesis": ("coins",), "fab": ("coins",)}, default=("none",)),
+    "batch_all": proj_by_op({"batch": ("coins", "counts", "extra", "fp", "tips", "fm", "ds", "stakes", "txs"), "block": ("status",)}, default=("none",)),
     "fees": proj_by_op({"batch": ("fp", "tips"), "seal": ("fp", "tips", "coins")}, default=("none",)),
     "settlement": proj_by_op({"seal": ("coins", "pools", "pools_n")}, default=("none",)),
     "pools": proj_by_op({"seal": ("pools", "pools_n"), "next": ("pools", "pools_n")}, default=("none",)),
